@@ -97,7 +97,11 @@ def main():
                 tests = int(m.group(1)) if m else 0
             files = re.findall(r'^\+\+\+ b/(.*)$', open(os.path.join(S, sid, 'patch.diff')).read(), re.M)
             det = last.get(sid)
-            meta = dict(id=sid, property=prop, base_commit=head, files=files, needs=NEEDS.get(sid, ''),
+            needs = NEEDS.get(sid, '')
+            note_p = os.path.join(S, sid, 'NOTE.txt')
+            if not needs and os.path.exists(note_p):
+                needs = ' '.join(open(note_p).read().split())      # the author's note: what the change is and when it manifests
+            meta = dict(id=sid, property=prop, base_commit=head, files=files, needs=needs,
                         confirmed=dict(demo_on_unchanged_tree=dict(exit=clean_rc, tail=clean_tail),
                                        patch_applies=applies,
                                        demo_on_patched_tree=dict(exit=pat_rc, tail=[l[:300] for l in pat_tail]),
